@@ -97,6 +97,10 @@ func BuildFunction(x *ast.FuncDecl, file *CodeContainer) *CodeFunction {
 			TypeValue: param.TypeValue,
 		})
 	}
+	if x.Body == nil {
+		// a declaration without body (the function is implemented outside Go): nothing to scan for calls
+		return codeFunc
+	}
 	for _, item := range x.Body.List {
 		localVars, _ = BuildMethodCall(codeFunc, item, fields, localVars, file.Imports, file.PackageName)
 	}
